@@ -595,6 +595,7 @@ func dkgDrive(run *mon.Run, which string) {
 		go func(i int, sc sim.Scenario) {
 			defer wg.Done()
 			defer func() { <-sem }()
+			defer run.Protect("c07 worker")
 			defer func() {
 				if e := recover(); e != nil {
 					run.Inconclusive(fmt.Sprintf("simulator panic on scenario %d: %v at %s", i, e, mon.PanicSite()))
